@@ -171,6 +171,7 @@ struct Options {
   std::string level = "exploration";
   std::string note;
   uint64_t first_index = 0;
+  std::string flavour = "ship";
 };
 static Options O;
 
@@ -364,6 +365,7 @@ static std::string make_replay_json(const RunResult& r, const std::string& plan_
   char b[256];
   o += " \"property\": " + json::quote(O.property) + ",\n";
   o += " \"harness\": " + json::quote(g_harness.name) + ",\n";
+  o += " \"flavour\": " + json::quote(O.flavour) + ",\n";
   o += " \"mode\": " + std::to_string(O.mode) + ",\n";
   o += " \"class\": " + json::quote(r.cls) + ",\n";
   o += " \"site\": " + json::quote(r.site) + ",\n";
@@ -846,6 +848,7 @@ int main(int argc, char** argv) {
     else if (a == "--quiet") quiet = true;
     else if (a == "--level") O.level = next();
     else if (a == "--note") O.note = next();
+    else if (a == "--flavour") O.flavour = next();
     else if (a == "--timeout") g_child_timeout_s = atoi(next());
     else if (a == "--known") {
       // class|site|description
